@@ -829,11 +829,13 @@ where
                     finished: Arc::clone(&finished),
                 };
                 let fut = async move {
-                    let mpc_fut = async {
-                        debug!("starting mpc computation");
-                        // Move permit into the async task so that its desctructor is run when the task is finished
-                        let _permit = permit;
-                        let output = polytune::mpc(
+                    debug!("starting mpc computation");
+                    // Only the computation itself can be cancelled. Once it has finished, its result
+                    // is delivered even if a cancel arrives in the meantime: dropping a delivery
+                    // that is in flight and sending the cancel error afterwards would notify the
+                    // output destination twice.
+                    let output = tokio::select!(
+                        output = polytune::mpc(
                             &channel,
                             compiled.circuit.unwrap_register_ref(),
                             &input,
@@ -841,49 +843,56 @@ where
                             policy.party,
                             &p_out,
                             tmp_dir.as_deref(),
-                        )
-                        .await;
-                        if let Some(url) = &policy.output {
-                            let client = &channel.client;
-                            match output {
-                                Ok(output) if !output.is_empty() => {
-                                    let _ = client
-                                        .output(
-                                            url.clone(),
-                                            compiled
-                                                .parse_output(&output)
-                                                .map_err(OutputError::InvalidOutput),
-                                        )
-                                        .await;
+                        ) => Some(output),
+                        _ = cancel.notified() => None,
+                    );
+                    let completed = output.is_some();
+                    match output {
+                        Some(output) => {
+                            if let Some(url) = &policy.output {
+                                let client = &channel.client;
+                                match output {
+                                    Ok(output) if !output.is_empty() => {
+                                        let _ = client
+                                            .output(
+                                                url.clone(),
+                                                compiled
+                                                    .parse_output(&output)
+                                                    .map_err(OutputError::InvalidOutput),
+                                            )
+                                            .await;
+                                    }
+                                    Ok(_) => {
+                                        warn!(
+                                            "policy contained output url but party received no output"
+                                        );
+                                    }
+                                    Err(err) => {
+                                        let _ = client
+                                            .output(url.clone(), Err(OutputError::MpcError(err)))
+                                            .await;
+                                    }
                                 }
-                                Ok(_) => {
-                                    warn!(
-                                        "policy contained output url but party received no output"
-                                    );
-                                }
-                                Err(err) => {
-                                    let _ = client
-                                        .output(url.clone(), Err(OutputError::MpcError(err)))
-                                        .await;
-                                }
+                            } else if let Err(err) = output {
+                                error!(?err);
                             }
-                        } else if let Err(err) = output {
-                            error!(?err);
                         }
-                        // This breaks from the `start` loop and drops the state machine
-                        let _ = cmd_tx.send(PolicyCmd::Stop).await;
-                    };
-                    tokio::select!(
-                        _ = mpc_fut => {},
-                        _ = cancel.notified() => {
+                        None => {
                             if let Err(err) = send_cancel(channel.client, policy).await {
                                 error!(%err, "unable to send cancelled error to output destination")
                             }
                         }
-                    );
+                    }
+                    // The permit is returned when the computation has ended and its outcome has
+                    // been delivered
+                    drop(permit);
                     // wakes a waiting `cancel()`; if none is waiting the permit is stored, so a
                     // later `cancel()` returns at once (the result has already been delivered)
                     finished.notify_one();
+                    if completed {
+                        // This breaks from the `start` loop and drops the state machine
+                        let _ = cmd_tx.send(PolicyCmd::Stop).await;
+                    }
                 };
 
                 tokio::spawn(fut.instrument(span));
